@@ -73,11 +73,14 @@ Cat(ss) == FlattenSeq(ss)
 (*        times: [b0, b1] monotonic and [w0, w1] wall clock around the call *)
 (*        that starts it, [e0, e1] monotonic around the call that ends it   *)
 (*        (only when the events carry clock readings)                       *)
+(*  ovl   a queue-full episode has occurred in this run (a submission was     *)
+(*        refused or a signal parked): C03 / C04 / C08 failures from then   *)
+(*        on are also failures of C09 ("degrades by omission only")         *)
 (*  viol  Seq([p, w, d, k])                                                 *)
 AbsInit(cfg) ==
   [cfg |-> cfg, sp |-> EmptyFn, rt |-> EmptyFn, ctx |-> EmptyFn, sc |-> EmptyFn, ls |-> EmptyFn,
    att |-> EmptyFn, exp |-> {}, opt |-> {}, dl |-> {}, never |-> {}, claims |-> {}, hints |-> {}, cyc |-> {},
-   fl |-> EmptyFn, cmds |-> EmptyFn, cut |-> {}, qs |-> {}, pk |-> EmptyFn, exc |-> {}, got |-> <<>>, gotrecs |-> <<>>, tm |-> EmptyFn, ad |-> EmptyFn, polled |-> EmptyFn, viol |-> <<>>]
+   fl |-> EmptyFn, cmds |-> EmptyFn, cut |-> {}, qs |-> {}, pk |-> EmptyFn, exc |-> {}, got |-> <<>>, gotrecs |-> <<>>, tm |-> EmptyFn, ad |-> EmptyFn, polled |-> EmptyFn, ovl |-> FALSE, viol |-> <<>>]
 
 Recording(a) == a.cfg.enabled /\ a.cfg.ready
 
@@ -148,8 +151,8 @@ TopAtts(ents, t) ==
         ELSE <<>>])
 
 \* the records a set of local-span entries is entitled to when attached under span h with lineage lin
-SetRecords(ents, h, lin, t, by) ==
-  {[n |-> ents[j].n, r |-> lin[i].r, tr |-> lin[i].tr, ci |-> i,
+SetRecords(ents, h, lin, t, by, sc) ==
+  {[n |-> ents[j].n, r |-> lin[i].r, tr |-> lin[i].tr, ci |-> i, sc |-> sc,
     par |-> IF ents[j].par = None THEN h ELSE ents[j].par,
     must |-> OwnAtts(ents, ents[j], t), own |-> TRUE, by |-> by, due |-> FALSE] :
      i \in {x \in DOMAIN lin : lin[x].smp}, j \in {y \in DOMAIN ents : ents[y].k = "span"}}
@@ -162,7 +165,7 @@ SpanRecords(a, h, by) ==
   LET s == a.sp[h]
       own == [i \in DOMAIN s.cprops |-> PAtt(s.cprops[i], "creation", by)]
       atts == Get(a.att, h, <<>>) IN
-  {[n |-> h, r |-> s.lin[i].r, tr |-> s.lin[i].tr, ci |-> i, par |-> s.lin[i].par,
+  {[n |-> h, r |-> s.lin[i].r, tr |-> s.lin[i].tr, ci |-> i, sc |-> None, par |-> s.lin[i].par,
     must |-> IF RootOpen(a, s.lin[i].r) \/ s.lin[i].r = h THEN own \o atts ELSE own,
     own |-> FALSE, by |-> by, due |-> FALSE] : i \in {x \in DOMAIN s.lin : s.lin[x].smp}}
 
@@ -229,7 +232,7 @@ NestBad(a, got, recs) ==
       loc(i) == got[i].own
       sameCopy(i, j) == got[i].r = got[j].r /\ got[i].ci = got[j].ci
       child(i, j) == loc(i) /\ loc(j) /\ sameCopy(i, j) /\ got[i].par = got[j].n        \* i is a child of j
-      sib(i, j) == i # j /\ loc(i) /\ loc(j) /\ sameCopy(i, j) /\ got[i].par = got[j].par
+      sib(i, j) == i # j /\ loc(i) /\ loc(j) /\ sameCopy(i, j) /\ got[i].par = got[j].par /\ got[i].sc = got[j].sc
       R == 2 IN
   IF \E i, j \in idx : child(i, j) /\ (recs[i].b + R < recs[j].b \/ recs[i].b + recs[i].d > recs[j].b + recs[j].d + R) THEN "child-outside-parent"
   ELSE IF \E i, j \in idx : sib(i, j) /\ recs[i].b <= recs[j].b /\ recs[i].b + recs[i].d > recs[j].b + R /\ recs[j].d > 0 /\ recs[i].d > R THEN "siblings-overlap"
@@ -240,7 +243,7 @@ NestBad(a, got, recs) ==
 ----------------------------------------------------------------------------
 (* API events *)
 
-NewSpan(a, h, lin, noop) == [a EXCEPT !.sp = Put(@, h, [noop |-> noop, lin |-> lin, cprops |-> <<>>, fin |-> FALSE])]
+NewSpan(a, h, lin, noop) == [a EXCEPT !.sp = Put(@, h, [noop |-> noop, lin |-> lin, cprops |-> <<>>, fin |-> FALSE, via |-> "handle"])]
 
 \* identifiers the implementation reveals (contexts) are checked against the names they must denote
 Claim(a, p, n, id) ==
@@ -293,7 +296,8 @@ CallChild(a, e) ==
   NewSpan(a, e.h, IF noop THEN <<>> ELSE lin, noop)
 
 CallChildLocal(a, e) ==
-  IF HasLocalParent(a, e.t) THEN NewSpan(a, e.h, LocalLin(a, e.t), FALSE) ELSE NewSpan(a, e.h, <<>>, TRUE)
+  LET a1 == IF HasLocalParent(a, e.t) THEN NewSpan(a, e.h, LocalLin(a, e.t), FALSE) ELSE NewSpan(a, e.h, <<>>, TRUE) IN
+  [a1 EXCEPT !.sp[e.h].via = "local"]
 
 CallSetLp(a, e) ==
   LET fr == Frames(a, e.t)
@@ -313,7 +317,7 @@ CallDropGuard(a, e) ==
   ELSE LET s == a.sc[e.g] a1 == PopFrame(a, e.t) IN
        IF ~TopFrame(a, e.t).live \/ ~s.smp THEN a1
        ELSE LET a2 == [a1 EXCEPT !.att = Put(@, s.h, Get(@, s.h, <<>>) \o TopAtts(s.ents, e.t))] IN
-            Unsampled(Entitle(a2, SetRecords(s.ents, s.h, s.lin, e.t, e.t)), SpanNames(s.ents), s.lin)
+            Unsampled(Entitle(a2, SetRecords(s.ents, s.h, s.lin, e.t, e.t, e.g)), SpanNames(s.ents), s.lin)
 
 CallLcStart(a, e) ==
   LET fr == Frames(a, e.t) live == a.cfg.enabled /\ LiveDepth(fr) < a.cfg.stack IN
@@ -391,7 +395,7 @@ CallPushChild(a, e) ==
   THEN LET s == a.ls[e.ls]
            lin == [i \in DOMAIN a.sp[e.h].lin |-> [a.sp[e.h].lin[i] EXCEPT !.par = e.h]]
            a1 == IF AnySampled(lin) THEN [a EXCEPT !.att = Put(@, e.h, Get(@, e.h, <<>>) \o TopAtts(s.ents, s.t))] ELSE a IN
-       Unsampled(Entitle(a1, SetRecords(s.ents, e.h, lin, s.t, e.t)), SpanNames(s.ents), lin)
+       Unsampled(Entitle(a1, SetRecords(s.ents, e.h, lin, s.t, e.t, e.ls)), SpanNames(s.ents), lin)
   ELSE a
 
 \* finishing a thread-safe span
@@ -462,18 +466,26 @@ Parked(a, e) ==
             ELSE IF n = None THEN a
             ELSE IF n = 0 THEN [a EXCEPT !.pk = Put(@, e.t, {})]
             ELSE IF isSig THEN [a EXCEPT !.pk = Put(@, e.t, mine \cup {e.h})] ELSE a IN
-  a1
+  [a1 EXCEPT !.ovl = @ \/ F(e, "refused") = TRUE \/ F(e, "dropped") = TRUE \/ (n # None /\ n > 0)]
 AllParked(a) == UNION {a.pk[t] : t \in DOMAIN a.pk} \cup a.exc
 
 \* what the next collector cycle must deliver: in cancelable mode a trace is owed once its root's
 \* finish has returned (and its finish signal is not parked behind a full queue)
 DueNow(a) == {x \in a.exp : x.due /\ (a.cfg.cancelable => a.rt[x.r].st = "fin" /\ a.rt[x.r].ret /\ x.r \notin AllParked(a))}
 
+\* a copy of a span that is entitled to several (one per parent): its absence is also a C02 matter
+MultiCopy(a, x) == \E y \in a.exp \cup a.opt \cup a.dl : y.n = x.n /\ (y.r # x.r \/ y.ci # x.ci)
+CopyMissing(a, st, late) ==
+  LET m == {x \in late : MultiCopy(a, x)} IN
+  IF m # {} THEN ViolK(st, "C02", "copy-missing", {[n |-> x.n, r |-> x.r, par |-> x.par] : x \in m},
+                       IF \A x \in m : a.rt[x.r].cid \in a.cut THEN "cut" ELSE None)
+  ELSE st
+
 CallFlush(a, e) == [a EXCEPT !.fl = Put(@, e.t, DueNow(a))]
 RetFlush(a, e) ==
   LET late == Get(a.fl, e.t, {}) \cap a.exp IN
   IF a.cfg.enabled /\ late # {}
-  THEN Viol(a, IF a.cfg.cancelable THEN "C03" ELSE "C01", "not-delivered-by-flush", {[n |-> x.n, r |-> x.r] : x \in late})
+  THEN CopyMissing(a, Viol(a, IF a.cfg.cancelable THEN "C03" ELSE "C01", "not-delivered-by-flush", {[n |-> x.n, r |-> x.r] : x \in late}), late)
   ELSE a
 
 \* local context must be what the abstract scopes say (C10), with the right identifiers (C11)
@@ -525,8 +537,7 @@ IdOf(a, n) == IF \E c \in a.claims : c[1] = n THEN (CHOOSE c \in a.claims : c[1]
               ELSE IF \E c \in a.hints : c[1] = n THEN (CHOOSE c \in a.hints : c[1] = n)[2] ELSE None
 
 \* records still expected or optional with the delivered record's name and trace
-Cands(a, rec) == LET C == {e \in a.exp : e.n = rec.name /\ e.tr = rec.trace} IN
-                 IF C # {} THEN C ELSE {e \in a.opt : e.n = rec.name /\ e.tr = rec.trace}
+Cands(a, rec) == {e \in a.exp \cup a.opt : e.n = rec.name /\ e.tr = rec.trace}
 ParentFits(a, e, rec) == IF e.par = None THEN a.rt[e.r].rpar = rec.parent ELSE IdOf(a, e.par) = rec.parent
 ParentOpen(a, e) == e.par # None /\ IdOf(a, e.par) = None
 
@@ -545,12 +556,17 @@ TakeRecord(a, rec) ==
        ELSE Viol(a, IF AdProp(a, rec.name) # None THEN AdProp(a, rec.name) ELSE IF a.cfg.cancelable THEN "C03" ELSE "C01", "unexpected-record", rec)
   ELSE LET fit == {e \in C : ParentFits(a, e, rec)}
            open == {e \in C : ParentOpen(a, e)}
-           e == IF fit # {} THEN CHOOSE x \in fit : TRUE ELSE IF open # {} THEN CHOOSE x \in open : TRUE ELSE CHOOSE x \in C : TRUE
+           \* owed copies before optional ones
+           Pick(S) == IF S \cap a.exp # {} THEN CHOOSE x \in S \cap a.exp : TRUE ELSE CHOOSE x \in S : TRUE
+           e == IF fit # {} THEN Pick(fit) ELSE IF open # {} THEN Pick(open) ELSE Pick(C)
            a1 == [a EXCEPT !.exp = @ \ {e}, !.opt = @ \ {e}, !.dl = @ \cup {[n |-> e.n, tr |-> e.tr, r |-> e.r, par |-> e.par, ci |-> e.ci]}]
            a2 == IF rec.id = Zero THEN Viol(a1, "C02", "zero-id", rec) ELSE Claim(a1, "C02", rec.name, rec.id)
            a3 == IF e.par = None
                  THEN IF a.rt[e.r].rpar # rec.parent THEN Viol(a2, "C02", "remote-parent", rec) ELSE a2
-                 ELSE IF fit = {} /\ open = {} THEN Viol(a2, "C02", "wrong-parent", [rec |-> rec, want |-> e.par])
+                 ELSE IF fit = {} /\ open = {}
+                 THEN LET v == Viol(a2, "C02", "wrong-parent", [rec |-> rec, want |-> e.par]) IN
+                      \* the parent came from the thread's local context: that is C10's business as well
+                      IF e.own \/ (Has(a.sp, e.n) /\ a.sp[e.n].via = "local") THEN Viol(v, "C10", "wrong-parent-from-local-context", [rec |-> rec, want |-> e.par]) ELSE v
                  ELSE Claim(a2, "C02", e.par, rec.parent)
            cb == ContentBad(a, e, rec)
            cid == a.rt[e.r].cid
@@ -624,7 +640,7 @@ BeforeProcess(a, e) == [a EXCEPT !.cut = @ \cup CutNow(a.cmds), !.cmds = Prune(a
 
 CycEnd(a, e) ==
   LET late == a.cyc \cap a.exp
-      a1 == [a EXCEPT !.cyc = {}]
+      a1 == CopyMissing(a, [a EXCEPT !.cyc = {}], a.cyc \cap a.exp)
       k == IF \A x \in late : a.rt[x.r].cid \in a.cut THEN "cut" ELSE None
       adl == {x \in late : AdProp(a, x.n) # None} IN
   IF late # {}
